@@ -76,26 +76,34 @@ type Call struct {
 	Inj    bool
 }
 
-// Tree is one simulated data tree plus the state of the current run against it.
+// Tree is one simulated data tree. After Generate it is immutable (apart from
+// the tree-owned path objects a careless caller may scribble on, which is what
+// PathsIntact detects); everything a run against it changes lives in a Run.
 type Tree struct {
-	Root  *Node
-	Nodes []*Node
-	Tag   string // goes into sentinels so that two trees never share one
+	Root     *Node
+	Nodes    []*Node
+	Tag      string // goes into sentinels so that two trees never share one
+	OwnPaths bool   // GetSdcpbPath returns the node's own object (true) or a fresh copy
+	*Run            // the default run (single-goroutine worlds use only this one)
+}
 
-	// per-run state (Reset clears)
+// Run is the state of one machine run against a tree: the numbered request
+// trace and the fault plan. Several runs (one per simulated client) can go on
+// against one tree at the same time; each is used by one goroutine only.
+type Run struct {
+	Tag       string
 	Calls     []Call
 	FailAt    map[int]bool // call numbers (1-based) that fail
 	FailProb  int          // per-mille probability drawn from FaultTape for each call
 	FaultTape *tape.Tape
 	CancelAt  int // call number before which ctx is cancelled (BreadthSearch honours it)
 	Cancel    context.CancelFunc
-	OwnPaths  bool                // GetSdcpbPath returns the node's own object (true) or a fresh copy
 	Yield     func(method string) // scheduler hook (C06); nil otherwise
 	Errors    []*SimError
 	NoSites   bool
 }
 
-func (t *Tree) Reset() {
+func (t *Run) Reset() {
 	t.Calls = t.Calls[:0]
 	t.FailAt = nil
 	t.FailProb = 0
@@ -105,12 +113,29 @@ func (t *Tree) Reset() {
 	t.Errors = nil
 }
 
+// View is a node seen through a run: the xpath.Entry handed to the machine.
+type View struct {
+	*Node
+	R *Run
+}
+
+// Entry returns the node as an xpath.Entry bound to run r (nil: the tree's default run).
+func (n *Node) Entry(r *Run) *View {
+	if r == nil {
+		r = n.tree.Run
+	}
+	return &View{Node: n, R: r}
+}
+
+// NewRun makes an independent run context for this tree.
+func (t *Tree) NewRun(tag string) *Run { return &Run{Tag: t.Tag + tag} }
+
 var names = []string{"a", "b", "c", "if", "name", "mtu", "x", "y", "k", "v"}
 var lits = []string{"", "a", "b", "eth0", "1", "42", "-3.5", "true", "x y", "0", "NaN", "é"}
 
 // Generate draws a small tree from the tape.
 func Generate(t *tape.Tape, tag string) *Tree {
-	tr := &Tree{Tag: tag, OwnPaths: true}
+	tr := &Tree{Tag: tag, OwnPaths: true, Run: &Run{Tag: tag}}
 	root := &Node{tree: tr, Name: "", Kind: Container}
 	tr.Root = root
 	tr.add(root)
@@ -278,8 +303,9 @@ func callSite() string {
 }
 
 // enter numbers the call, records it and decides whether it fails.
-func (n *Node) enter(method, arg string) error {
-	tr := n.tree
+func (v *View) enter(method, arg string) error {
+	n := v.Node
+	tr := v.R
 	if tr.Yield != nil {
 		tr.Yield(method)
 	}
@@ -306,8 +332,8 @@ func (n *Node) enter(method, arg string) error {
 }
 
 // natural failure (not found etc.): also a tree-reported error with a sentinel.
-func (n *Node) natural(method, why string) error {
-	tr := n.tree
+func (v *View) natural(method, why string) error {
+	tr := v.R
 	c := &tr.Calls[len(tr.Calls)-1]
 	c.Failed = true
 	e := &SimError{Sentinel: fmt.Sprintf("SIMTREE-%s-%d-%s-%s", tr.Tag, c.N, method, why), Method: method, Call: c.N}
@@ -361,22 +387,22 @@ func (n *Node) resolve(path *sdcpb.Path) (*Node, string) {
 	return cur, ""
 }
 
-func (n *Node) Navigate(path *sdcpb.Path) (xpath.Entry, error) {
-	if err := n.enter("Navigate", PathString(path)); err != nil {
+func (v *View) Navigate(path *sdcpb.Path) (xpath.Entry, error) {
+	if err := v.enter("Navigate", PathString(path)); err != nil {
 		return nil, err
 	}
-	r, why := n.resolve(path)
+	r, why := v.Node.resolve(path)
 	if r == nil {
-		return nil, n.natural("Navigate", why)
+		return nil, v.natural("Navigate", why)
 	}
-	return r, nil
+	return &View{Node: r, R: v.R}, nil
 }
 
-func (n *Node) GetValue() (xpath.Datum, error) {
-	if err := n.enter("GetValue", ""); err != nil {
+func (v *View) GetValue() (xpath.Datum, error) {
+	if err := v.enter("GetValue", ""); err != nil {
 		return nil, err
 	}
-	return n.datum(), nil
+	return v.Node.datum(), nil
 }
 
 func scalar(vk ValKind, lit string, num float64, b bool) xpath.Datum {
@@ -403,25 +429,28 @@ func (n *Node) datum() xpath.Datum {
 	return xpath.NewNodesetDatum(nil)
 }
 
-func (n *Node) Copy() xpath.Entry {
-	if n.tree.Yield != nil {
-		n.tree.Yield("Copy")
+func (v *View) Copy() xpath.Entry {
+	if v.R.Yield != nil {
+		v.R.Yield("Copy")
 	}
-	return n
+	return &View{Node: v.Node, R: v.R}
 }
 
-func (n *Node) FollowLeafRef() (xpath.Entry, error) {
-	if err := n.enter("FollowLeafRef", ""); err != nil {
+func (v *View) FollowLeafRef() (xpath.Entry, error) {
+	n := v.Node
+	if err := v.enter("FollowLeafRef", ""); err != nil {
 		return nil, err
 	}
 	if n.Kind != LeafRef {
-		return nil, n.natural("FollowLeafRef", "notleafref")
+		return nil, v.natural("FollowLeafRef", "notleafref")
 	}
 	if n.Target == nil {
-		return nil, n.natural("FollowLeafRef", "dangling")
+		return nil, v.natural("FollowLeafRef", "dangling")
 	}
-	return n.Target, nil
+	return &View{Node: n.Target, R: v.R}, nil
 }
+
+func (v *View) GetSdcpbPath() *sdcpb.Path { return v.Node.GetSdcpbPath() }
 
 func (n *Node) GetSdcpbPath() *sdcpb.Path {
 	if n.tree.OwnPaths {
@@ -430,12 +459,13 @@ func (n *Node) GetSdcpbPath() *sdcpb.Path {
 	return n.path.DeepCopy()
 }
 
-func (n *Node) BreadthSearch(ctx context.Context, path *sdcpb.Path) ([]xpath.Entry, error) {
-	if err := n.enter("BreadthSearch", PathString(path)); err != nil {
+func (v *View) BreadthSearch(ctx context.Context, path *sdcpb.Path) ([]xpath.Entry, error) {
+	n := v.Node
+	if err := v.enter("BreadthSearch", PathString(path)); err != nil {
 		return nil, err
 	}
 	if ctx != nil && ctx.Err() != nil {
-		return nil, n.natural("BreadthSearch", "ctxcancelled")
+		return nil, v.natural("BreadthSearch", "ctxcancelled")
 	}
 	start := n
 	if path != nil && path.IsRootBased {
@@ -475,13 +505,13 @@ func (n *Node) BreadthSearch(ctx context.Context, path *sdcpb.Path) ([]xpath.Ent
 	}
 	out := make([]xpath.Entry, 0, len(cur))
 	for _, c := range cur {
-		out = append(out, c)
+		out = append(out, &View{Node: c, R: v.R})
 	}
 	return out, nil
 }
 
 // Trace renders the request trace canonically.
-func (tr *Tree) Trace() string {
+func (tr *Run) Trace() string {
 	var b strings.Builder
 	for _, c := range tr.Calls {
 		fmt.Fprintf(&b, "%d %s %s(%s)", c.N, c.Recv, c.Method, c.Arg)
